@@ -163,6 +163,16 @@ func (p *pool) peers() []peer.ID {
 	return peers
 }
 
+// allPeers returns a copy of the list of all peers tracked by the pool, regardless of their status.
+func (p *pool) allPeers() []peer.ID {
+	p.m.RLock()
+	defer p.m.RUnlock()
+
+	peers := make([]peer.ID, len(p.peersList))
+	copy(peers, p.peersList)
+	return peers
+}
+
 // cleanup will reduce memory footprint of pool.
 func (p *pool) cleanup() {
 	newList := make([]peer.ID, 0, p.activeCount)
